@@ -340,3 +340,29 @@ pub proof fn lemma_removed_shrinks(d0: Db, d1: Db)
     ensures index_shrinks(d0, d1)
 {
 }
+// an event owns exactly one akc key
+pub proof fn lemma_akc_key_unique(e: Seq<u8>, k: Seq<u8>, k0: Seq<u8>)
+    requires is_event_key(e, T_AKC(), k), is_event_key(e, T_AKC(), k0)
+    ensures k == k0, k == k_akc(ev_pubkey(e), ev_kind(e), ev_created_at(e), ev_id(e))
+{
+    lemma_tag_key_tables(e, T_AKC(), k, t_count(ev_tags(e)));
+    lemma_tag_key_tables(e, T_AKC(), k0, t_count(ev_tags(e)));
+}
+// removing the events of the <= until sub-range leaves every other entry of the akc table alone
+pub proof fn lemma_akc_survives(w: World, d: Db, a: Seq<u8>, kd: u16, until: u64, k: Seq<u8>)
+    requires world_inv(w), db_ok(d, w), db_tab(d, T_AKC()).contains_key(k),
+        !in_range(db_tab(d, T_AKC()), k_akc(a, kd, until, zeros32()), k_akc(a, kd, 0, ffs32()), k)
+    ensures !removed_by_range(db_tab(d, T_AKC()), k_akc(a, kd, until, zeros32()), k_akc(a, kd, 0, ffs32()), w, None, T_AKC(), k)
+{
+    let tab = db_tab(d, T_AKC());
+    let lo = k_akc(a, kd, until, zeros32());
+    let hi = k_akc(a, kd, 0, ffs32());
+    if removed_by_range(tab, lo, hi, w, None, T_AKC(), k) {
+        let k0 = choose|k0: Seq<u8>| #[trigger] in_range(tab, lo, hi, k0) && scan_selects(w, None, tab[k0]) && is_event_key(w.events[tab[k0] as int], T_AKC(), k);
+        assert(d.t[T_AKC()].contains_key(k0));
+        let e = w.events[tab[k0] as int];
+        assert(is_event_key(e, T_AKC(), k0));
+        lemma_akc_key_unique(e, k, k0);
+    }
+}
+pub open spec fn is_repl_kind(k: u16) -> bool { k == 0 || k == 3 || 10000 <= k <= 19999 }
